@@ -113,10 +113,71 @@ func classifySetMethod(fn *ssa.Function) setEffect {
 				}
 			}
 		}
+		// what a helper handed the receiver gives back when it gives back the receiver's map (s.ensure(n), which
+		// returns *s): every return of the callee is its first parameter or a load through it
+		if call, ok := v.(*ssa.Call); ok && len(call.Call.Args) > 0 && (fromRecvD(call.Call.Args[0], d+1) || (len(fn.Params) > 0 && call.Call.Args[0] == ssa.Value(fn.Params[0]))) {
+			if cal := origin(staticCallee(&call.Call)); cal != nil && cal.Blocks != nil && len(cal.Params) > 0 {
+				n, all := 0, true
+				allInstrs(cal, func(in ssa.Instruction) {
+					if r, ok := in.(*ssa.Return); ok && len(r.Results) == 1 {
+						n++
+						a, isLd := loadAddr(r.Results[0])
+						if !(r.Results[0] == ssa.Value(cal.Params[0]) || (isLd && a == ssa.Value(cal.Params[0]))) {
+							all = false
+						}
+					}
+				})
+				if n > 0 && all {
+					return true
+				}
+			}
+		}
 		return false
 	}
-	fromRecv := func(v ssa.Value) bool { return fromRecvD(v, 0) }
-	allInstrs(fn, func(in ssa.Instruction) {
+	// inside the body of a range-over-func loop the receiver arrives as a captured variable
+	capt := map[ssa.Value]ssa.Value{}
+	for _, f2 := range withClosures(fn) {
+		allInstrs(f2, func(in ssa.Instruction) {
+			if mc, ok := in.(*ssa.MakeClosure); ok {
+				if cl, ok := mc.Fn.(*ssa.Function); ok {
+					for i, b := range mc.Bindings {
+						if i < len(cl.FreeVars) {
+							capt[cl.FreeVars[i]] = b
+						}
+					}
+				}
+			}
+		})
+	}
+	fromRecv := func(v ssa.Value) bool {
+		for i := 0; i < 3; i++ {
+			if fromRecvD(v, 0) {
+				return true
+			}
+			if a, ok := loadAddr(v); ok {
+				if b, isCapt := capt[a]; isCapt {
+					// a load of a captured cell: what the parent stored into it
+					if al, isAl := b.(*ssa.Alloc); isAl {
+						for _, r := range referrersOf(al) {
+							if st, ok := r.(*ssa.Store); ok && st.Addr == ssa.Value(al) && (fromRecvD(st.Val, 0) || (len(fn.Params) > 0 && st.Val == ssa.Value(fn.Params[0]))) {
+								return true
+							}
+						}
+					}
+					v = b
+					continue
+				}
+			}
+			if b, isCapt := capt[v]; isCapt {
+				v = b
+				continue
+			}
+			break
+		}
+		return false
+	}
+	for _, f2 := range withClosures(fn) {
+	allInstrs(f2, func(in ssa.Instruction) {
 		switch x := in.(type) {
 		case *ssa.MapUpdate:
 			if fromRecv(x.Map) {
@@ -152,6 +213,7 @@ func classifySetMethod(fn *ssa.Function) setEffect {
 			}
 		}
 	})
+	}
 	return e
 }
 
@@ -1055,6 +1117,14 @@ func runC19(c *Ctx) {
 				call, ok := y.(*ssa.Call)
 				if !ok {
 					return false
+				}
+				// a one-line accessor of the counter that returns the count (c.passes()): read its return instead
+				if h := origin(staticCallee(&call.Call)); h != nil && h.Blocks != nil && len(h.Blocks) == 1 && h.Pkg == origin(cnt).Pkg && want == "LeadingZeros64" {
+					if ret, ok := h.Blocks[0].Instrs[len(h.Blocks[0].Instrs)-1].(*ssa.Return); ok && len(ret.Results) == 1 {
+						if inner, ok := ret.Results[0].(*ssa.Call); ok {
+							call = inner
+						}
+					}
 				}
 				cal := call.Call.StaticCallee()
 				if cal == nil || cal.Pkg == nil || cal.Pkg.Pkg.Path() != "math/bits" || cal.Name() != want {
